@@ -369,6 +369,22 @@ def rule_stable_unsat(ctx, kind=None):
     )
     bodies = [b for b in prog.lib_bodies() if b.kind != "closure" and b.impl and b.impl.get("self_adt") == STABLE and (scope is None or b.id in scope)]
     n = 0
+
+    def _matched(b, u):
+        res = u.node["dst"]["l"]
+        for s in switch_sites(b):
+            subj = switch_subject(b, s)
+            if subj and subj[1]:
+                root = subj[0]["l"]
+                seen, _, _ = data_deps(b, {"l": root, "p": []}, through_calls=False)
+                if res in seen or root == res:
+                    return True
+        return False
+
+    # the direct form (every SAT result matched where it is produced) or the general one (None travels up through helpers / `?`)
+    direct = all(_matched(b, u) for b in bodies for u in b.calls() if callee_decl(callee_of(u)) == "sat::sat_solver::SolvingResult::unwrap_model")
+    if not direct:
+        bodies = []
     for b in bodies:
         unwraps = [s for s in b.calls() if callee_decl(callee_of(s)) == "sat::sat_solver::SolvingResult::unwrap_model"]
         for u in unwraps:
@@ -434,7 +450,7 @@ def rule_stable_unsat(ctx, kind=None):
                                     r.check(k is not None and k.get("bool") is want_unsat, "%s|on-unsat" % eb.id, "on_unsat=%s" % (k and k.get("bool")), "%s passes on_unsat=%s" % ("credulous" if tr == CRED else "skeptical", want_unsat), "the %s entry point passes status_on_unsat=%s" % ("credulous" if tr == CRED else "skeptical", k and k.get("bool")), cs.loc())
         # loop source
         if unwraps:
-            it = [s for s in b.calls() if callee_matches(callee_of(s), r"ConnectedComponentsComputer::iter_connected_components$")]
+            it = [s for s in b.calls() if callee_matches(callee_of(s), r"ConnectedComponentsComputer::iter_connected_components$|ConnectedComponentsComputer::<.*>::new$|ConnectedComponentsComputer::new$")]
             ok = bool(it) and all(any(o.kind == "param" and o.data == 1 and [str(f) for f in o.fields] == ["af"] for o in origins(b, s.node["args"][0])) for s in it)
             r.check(ok, b.id + "|components", "component-source", "iterates all connected components of self.af", "the loop does not range over all components of the caller's framework", b.loc())
     if n == 0:
@@ -811,7 +827,14 @@ def rule_completion_semantics(ctx):
             sblocks = set()
             for h, bl in loops:
                 sblocks |= bl
-            want = _producers_in(prog, sib, sblocks or None) - {"solve"}
+            want_full = _producers_in(prog, sib, sblocks or None)
+            want = want_full - {"solve"}
+            if sib is b:
+                r.ok(b.id + "|completion", "this loop over the components is the single-extension computation itself", drains[0].loc())
+                continue
+            if not want and want_full == {"solve"} and got == {"solve"}:
+                r.ok(b.id + "|completion", "every component is solved by a SAT call, like compute_one_extension", drains[0].loc())
+                continue
             r.check(got - {"solve"} == want and bool(want), b.id + "|completion", "producers=%s want=%s" % (sorted(got), sorted(want)), "completion uses %s, like compute_one_extension" % sorted(want), "the certificate is completed on the other components with %s, but this solver's extensions are computed with %s: the completed set need not be an extension under the queried semantics" % (sorted(got), sorted(want)), drains[0].loc())
         else:
             r.check(got == {"grounded_extension"}, b.id + "|completion", "producers=%s" % sorted(got), "completion uses grounded extensions (complete)", "a solver without single-extension computation completes its certificate with %s" % sorted(got), drains[0].loc())
